@@ -556,9 +556,54 @@ class _FuncEval:
         else:
             self.store(target, v, st)
 
+    def _reaching_values(self, name: str, st) -> Optional[AV]:
+        """Flow-sensitive value of a local at a statement, when every binding of
+        the name in this function is a plain `name = expr`: the join over the
+        assignments that reach the statement (a variable re-used on an earlier,
+        returning path does not count).  None when that cannot be decided."""
+        from .cfg import CFG, iter_stmts
+        f = self.f
+        if isinstance(f.node, ast.Lambda) or name in f.all_params:
+            return None
+        defs = []
+        for n in ast.walk(f.node):
+            if isinstance(n, ast.Name) and n.id == name and isinstance(n.ctx, (ast.Store, ast.Del)):
+                holder = None
+                for s_ in iter_stmts(f.body):
+                    if isinstance(s_, ast.Assign) and len(s_.targets) == 1 and s_.targets[0] is n:
+                        holder = s_
+                if holder is None:
+                    return None  # bound by a loop, a with, an unpacking, ...
+                defs.append(holder)
+            if isinstance(n, (ast.FunctionDef, ast.Lambda)) and n is not f.node and any(isinstance(x, ast.Name) and x.id == name for x in ast.walk(n)):
+                return None  # shared with a closure
+        if not defs:
+            return None
+        cfg = getattr(self, "_cfg", None)
+        if cfg is None:
+            cfg = self._cfg = CFG(f.body)
+        here = cfg.node(st)
+        if here is None:
+            return None
+        nodes = {id(d): cfg.node(d) for d in defs}
+        if any(v is None for v in nodes.values()):
+            return None
+        out = EMPTY
+        hit = False
+        for d in defs:
+            others = [nodes[id(o)] for o in defs if o is not d]
+            if here in cfg.reachable_from(nodes[id(d)], removed_nodes=others):
+                out = out | self.ev(d.value)
+                hit = True
+        return out if hit else None
+
     def store(self, target, v: AV, st):
         if isinstance(target, ast.Attribute):
             base = self.ev(target.value)
+            if isinstance(target.value, ast.Name) and target.value.id != self.selfname:
+                rv = self._reaching_values(target.value.id, st)
+                if rv is not None:
+                    base = rv
             if isinstance(target.value, ast.Name) and target.value.id == self.selfname and self.f.cls:
                 self.o._join_store(self.o.class_stores, (self.f.cls, target.attr), v)
             for a in base:
